@@ -9,6 +9,7 @@ import (
 	"os"
 	"os/exec"
 	"path/filepath"
+	"sort"
 	"strings"
 	"sync"
 	"time"
@@ -51,23 +52,8 @@ func (v *Verifier) smtTextKeep(o *Obligation, withModel bool, keep map[int]bool)
 	}
 	b.WriteString("(set-logic ALL)\n")
 	b.WriteString("; obligation " + o.Name + "\n; " + strings.ReplaceAll(o.Src, "\n", " ") + "\n")
-	var body strings.Builder
-	for _, d := range v.pureDefs {
-		body.WriteString(d + "\n")
-	}
-	if o.Root != nil {
-		for idx, it := range o.Root.items[:o.N] {
-			if keep != nil && it.Kind == "assume" && !keep[idx] {
-				continue
-			}
-			body.WriteString(it.Text + "\n")
-		}
-	}
-	body.WriteString(o.Goal)
-	b.WriteString(v.g.PreambleFor(o.ExpSat, body.String()))
-	for _, d := range v.pureDefs {
-		b.WriteString(d + "\n")
-	}
+	// items of the obligation first, then only the pure spec functions they (transitively) mention, in definition order
+	var items strings.Builder
 	if o.Root != nil {
 		for idx, it := range o.Root.items[:o.N] {
 			if keep != nil && it.Kind == "assume" && !keep[idx] {
@@ -76,9 +62,71 @@ func (v *Verifier) smtTextKeep(o *Obligation, withModel bool, keep map[int]bool)
 			if o.ExpSat && it.Kind == "assume" && (strings.Contains(it.Text, "(forall ") || strings.Contains(it.Text, "(exists ")) {
 				continue // smoke checks run without quantified facts (see DESIGN 5.2)
 			}
-			b.WriteString(it.Text + "\n")
+			items.WriteString(it.Text + "\n")
 		}
 	}
+	used := map[string]bool{}
+	identSet(items.String(), used)
+	identSet(o.Goal, used)
+	pureName := func(d string) string {
+		t := strings.TrimPrefix(d, "(define-fun ")
+		if i := strings.IndexByte(t, ' '); i > 0 {
+			return t[:i]
+		}
+		return t
+	}
+	inc := make([]bool, len(v.pureDefs))
+	for changed := true; changed; {
+		changed = false
+		for i, d := range v.pureDefs {
+			if !inc[i] && used[pureName(d)] {
+				inc[i] = true
+				identSet(d, used)
+				changed = true
+			}
+		}
+	}
+	// canonical order: alphabetical, subject to "a definition comes after the pure functions it uses"
+	var sel []string
+	for i, d := range v.pureDefs {
+		if inc[i] {
+			sel = append(sel, d)
+		}
+	}
+	sort.Slice(sel, func(i, j int) bool { return pureName(sel[i]) < pureName(sel[j]) })
+	var pures strings.Builder
+	emitted := map[string]bool{}
+	for len(emitted) < len(sel) {
+		progress := false
+		for _, d := range sel {
+			n := pureName(d)
+			if emitted[n] {
+				continue
+			}
+			ids := map[string]bool{}
+			identSet(d, ids)
+			ready := true
+			for _, d2 := range sel {
+				n2 := pureName(d2)
+				if n2 != n && ids[n2] && !emitted[n2] {
+					ready = false
+					break
+				}
+			}
+			if ready {
+				pures.WriteString(d + "\n")
+				emitted[n] = true
+				progress = true
+				break
+			}
+		}
+		if !progress {
+			break
+		}
+	}
+	b.WriteString(v.g.PreambleFor(o.ExpSat, pures.String()+items.String()+o.Goal))
+	b.WriteString(pures.String())
+	b.WriteString(items.String())
 	if o.ExpSat {
 		b.WriteString("(assert " + o.Goal + ")\n")
 	} else {
